@@ -30,6 +30,6 @@ worker() {
 }
 for k in $(seq 1 $N); do worker $k & done
 wait
-for k in $(seq 1 $N); do rm -rf $PAR/w$k; done
+[ -n "$KEEP" ] || for k in $(seq 1 $N); do rm -rf $PAR/w$k; done
 rmdir $PAR 2>/dev/null
 echo "all jobs done"
